@@ -21,6 +21,7 @@ use std::sync::Arc;
 
 #[derive(Clone, Debug)]
 pub struct NodeRow {
+    #[allow(dead_code)]
     pub rowid: i64,
     pub id: Vec<u8>,
     pub room_id: Option<Vec<u8>>,
